@@ -92,7 +92,7 @@ def run(ctx):
                 if opt.get("bounds"):
                     akw["prior_bounds"] = tgt.bounds_dict()
                 if opt.get("periodic"):
-                    akw["periodic_parameters"] = ["x_0"]
+                    akw["periodic_parameters"] = [sd.pname(0)]
                 if pre == "flow":
                     akw["flow_backend"] = "zuko"
                     akw["bounded_to_unbounded"] = True
